@@ -375,3 +375,27 @@ def replay_index_routing(diffs):
              ("findall(K, k(h(1), K), L), show(L)", "[]"),
              ("findall(K, k(_, K), L), length(L, N), show(N)", "10")]
     return run_cases(IDX2_PROGRAM, cases, {"model": diffs}, "C06", "index_routing")
+
+
+# ---------------------------------------------------------------- C20 (suffix comparison)
+def replay_string_suffix_compare(viol):
+    """suffixes of a string (unaligned starts) compared / unified with strings and with the
+    lists they denote; expected orders computed on the Python strings"""
+    base = "abcdefghijklmnopqrstuvwx"
+    cases = []
+
+    def order(a, b):
+        return "<" if a < b else (">" if a > b else "=")
+    for total in (10, 16, 17):
+        s = base[:total]
+        for k in (1, 3, 5, 7):
+            suf = s[k:]
+            skip = ",".join("_" for _ in range(k))
+            for other in (suf + "k", suf, suf[:-1], suf[:-1] + "z"):
+                cases.append(('X = "%s", X = [%s|T], compare(O, T, "%s"), write(O), nl' % (s, skip, other),
+                              order(suf, other)))
+                cases.append(('X = "%s", X = [%s|T], compare(O, "%s", T), write(O), nl' % (s, skip, other),
+                              order(other, suf)))
+            lst = "[" + ",".join(suf) + "]"
+            cases.append(('X = "%s", X = [%s|T], ( T == %s -> write(yes) ; write(no) ), nl' % (s, skip, lst), "yes"))
+    return run_cases("", cases, {"model": viol}, "C20", "string_suffix_compare")
